@@ -4,7 +4,7 @@ RPC = "crates/libs/sciparse/src/scion/segment/rpc.rs"
 SEG = "crates/libs/sciparse/src/scion/segment.rs"
 
 PROP = {
-    "level": "model_checking",
+    "level": "proof",
     "clauses": [
         "C18-1 RPC leaf conversions SegmentHopField, HopEntry, PeerEntry, SegmentInfo: try_from_rpc total (no panic) on every message; "
         "Ok <=> every field in range of its target type and sub-messages present (out-of-range => Err, no silent narrowing); "
